@@ -161,6 +161,15 @@ def held_state(inst):
         return state
 
 
+_HISTORY_DONE = {}
+
+
+def json_roundtrip(x):
+    import json
+
+    return json.loads(H.canon(x))
+
+
 def eval_fresh(item):
     """Result of one item in a brand-new interpreter (no history at all)."""
     import json
@@ -226,6 +235,22 @@ def check_case(case):
         if not (rs[0] == rs[1] == rs[2]):
             ob = case["item"].get("ob", {})
             out.append((f"result-changes-on-repetition/{case['item']['kind']}", f"{ob.get('cls')} {ob.get('kind')} {ob.get('which', ob.get('attr', ''))}: {[H.canon(r)[:60] for r in rs]}"))
+    elif case["kind"] == "vs-fresh":
+        # replayed alone, the history is re-created first: every obligation of the class, in order
+        if case.get("after") and not _HISTORY_DONE.get(case["after"]):
+            from pbt.checks import c04
+
+            _HISTORY_DONE[case["after"]] = True
+            for ob in c04.obligations(M.universe()[case["after"]]):
+                try:
+                    run_item({"kind": "fail", "ob": ob})
+                except H.HarnessError:
+                    pass
+        now = json_roundtrip(run_item(case["item"])[0])
+        fresh = eval_fresh(case["item"])
+        if now != fresh:
+            ob = case["item"]["ob"]
+            out.append(("result-depends-on-history/fail-custom", f"{ob.get('cls')} {ob.get('which')}: in this process {H.canon(now)[:80]}, in a fresh interpreter {H.canon(fresh)[:80]}"))
     elif case["kind"] == "threads" and case.get("fresh"):
         # the threads are the FIRST users of the classes in a brand-new interpreter (first-use initialisation races),
         # the sequential baseline is computed afterwards in that same interpreter
@@ -512,6 +537,17 @@ def _repeat_worker(names):
             item = {"kind": "fail", "ob": ob}
             case = {"kind": "repeat", "item": item}
             s.case(case, nontrivial=True, labels=["repetition of a failing conversion: " + ob["kind"]])
+            for k, d in check_case(case):
+                s.fail(k, case, d)
+    # hand-written rules (validate_args) are where module-level scratch state can hide: each of their violations is
+    # evaluated once more now - after everything above has run in this process - and in a brand-new interpreter
+    for name in names:
+        _HISTORY_DONE[name] = True
+        for ob in c04.obligations(U[name]):
+            if ob["kind"] != "custom":
+                continue
+            case = {"kind": "vs-fresh", "item": {"kind": "fail", "ob": ob}, "after": name}
+            s.case(case, nontrivial=True, labels=["hand-written rule: after a long history vs. fresh interpreter"])
             for k, d in check_case(case):
                 s.fail(k, case, d)
     return s
